@@ -1,3 +1,6 @@
+/-
+  C14 helper lemmas, part 11: find_auth_rq_header_ completely characterised.
+-/
 import Mhd.Proofs.AuthBasic
 namespace Mhd.Auth
 open Mhd.Gen.Auth
